@@ -4,7 +4,12 @@
 (* boundary values of the type's domain and emits the cell TlbSem!Enc prescribes *)
 (* for each.  The Go side must encode the value to exactly that cell, and decode *)
 (* that cell back to exactly that value.                                         *)
-EXTENDS TlbSem, Json
+(* Self-check of the specification (encoder and decoder cross-validate): for    *)
+(* every vector, TlbDec!Dec reads the value back from TlbSem!Enc's cell and      *)
+(* leaves nothing (invariant DecAgrees; also reported per vector as `dec`), and  *)
+(* for dictionaries - where Enc prescribes no unique cell - Dec reads back what   *)
+(* the reference writer Dict!EncDictE wrote in every label form (DictAgrees).     *)
+EXTENDS TlbDec, Json
 
 Types == JsonDeserialize("types.json")        \* sequence of [name, ast]
 
@@ -43,8 +48,61 @@ Init == /\ ti \in 1..Len(Types) /\ k \in 1..Len(Vals(Types[ti][2])) /\ out = "to
 Vec == LET ty == Types[ti][2]
            val == Vals(ty)[k]
            r == Enc(<<>>, ty, val)
-       IN [type |-> Types[ti][1], v |-> val, ok |-> r.ok,
+       IN [type |-> Types[ti][1], v |-> val, ok |-> r.ok, dec |-> DecEncAgree(<<>>, ty, val),
            tree |-> IF r.ok THEN TreeJson(r.c) ELSE TreeJson(EmptyCell), text |-> IF r.ok THEN TreeText(r.c) ELSE ""]
 Next == out = "todo" /\ out' = "done" /\ UNCHANGED <<ti, k>> /\ PrintT(<<"VEC", ToJson(Vec)>>)
 Spec == Init /\ [][Next]_<<ti, k, out>>
+
+\* ---------------------------------------------------------------- self-checks of the specification
+DecAgrees == out = "todo" => DecEncAgree(<<>>, Types[ti][2], Vals(Types[ti][2])[k])
+
+\* dictionaries: table (Dict's writer) -> tree
+RECURSIVE TreeOfTable(_, _)
+TreeOfTable(T, i) == [b |-> T[i].b, x |-> T[i].x, r |-> [q \in 1..Len(T[i].r) |-> TreeOfTable(T, T[i].r[q])]]
+DictTy(n, val) == [t |-> "seq", fields |-> << [name |-> "a", ty |-> [t |-> "uint", n |-> 3]],
+                                             [name |-> "d", ty |-> [t |-> "dict", n |-> n, val |-> val]],
+                                             [name |-> "z", ty |-> [t |-> "bool"]] >>]
+\* key sets (as bit strings) of width 4, values of a type with bits, a Maybe and a reference
+DictKeySets == << <<>>, << <<0,0,0,0>> >>, << <<1,1,1,1>> >>, << <<0,0,0,0>>, <<1,1,1,1>> >>, << <<0,1,0,0>>, <<0,1,0,1>>, <<0,1,1,1>> >>,
+                 << <<0,0,0,0>>, <<0,0,0,1>>, <<0,0,1,0>>, <<1,0,0,0>>, <<1,1,1,0>>, <<1,1,1,1>> >>,
+                 [i \in 1..16 |-> D!NatToBits(i - 1, 4)] >>
+DictValTy == [t |-> "seq", fields |-> << [name |-> "x", ty |-> [t |-> "varuint", n |-> 16]],
+                                        [name |-> "m", ty |-> [t |-> "maybe", of |-> [t |-> "ref", of |-> [t |-> "int", n |-> 9]]]] >>]
+DictVal(i) == << BitsToDec(D!NatToBits(i * 37, 12)), IF i % 2 = 0 THEN [has |-> FALSE] ELSE [has |-> TRUE, v |-> SDec(D!NatToBits(i * 29, 9))] >>
+DictCase(keys, forms) ==
+  LET items == [i \in 1..Len(keys) |-> [k |-> keys[i], v |-> LET e == Enc(<<>>, DictValTy, DictVal(i)) IN [b |-> e.c.b, kids |-> e.c.r]]]
+      \* Dict's writer builds leaves without references: write the dictionary over the value BITS and graft the references back
+      T0 == D!EncDictE([i \in 1..Len(items) |-> [k |-> items[i].k, v |-> [b |-> items[i].v.b]]], 4, forms)
+      tree0 == TreeOfTable(T0, 1)
+      RECURSIVE Graft(_, _)
+      Graft(t, path) == IF Len(t.r) = 0
+                          THEN LET ix == {i \in 1..Len(items) : \E lb \in {D!Label(t.b, 4 - Len(path))} : lb.ok /\ path \o lb.s = items[i].k} IN
+                               IF ix = {} THEN t ELSE [t EXCEPT !.r = items[CHOOSE i \in ix : TRUE].v.kids]
+                          ELSE LET lb == D!Label(t.b, 4 - Len(path)) IN
+                               [t EXCEPT !.r = << Graft(t.r[1], path \o lb.s \o <<0>>), Graft(t.r[2], path \o lb.s \o <<1>>) >>]
+      dictcell == IF Len(keys) = 0 THEN tree0 ELSE [tree0 EXCEPT !.r = << Graft(tree0.r[1], <<>>) >>]
+      whole == [b |-> <<1, 0, 1>> \o dictcell.b \o <<1>>, x |-> 0, r |-> dictcell.r]
+      want == << "5", [i \in 1..Len(keys) |-> << BitsToStr(keys[i]), DictVal(i) >>], TRUE >>
+      d == Dec(<<>>, DictTy(4, DictValTy), whole)
+  IN NothingLeft(d) /\ Canon(<<>>, DictTy(4, DictValTy), d.v) = Canon(<<>>, DictTy(4, DictValTy), want)
+DictAgrees == \A ks \in 1..Len(DictKeySets) :
+                \A forms \in {<<"short">>, <<"long">>, <<"same">>, <<"short", "long", "same">>, <<"same", "long">>} :
+                   DictCase(DictKeySets[ks], forms) \/ (PrintT(<<"DICT-SELF-CHECK-FAILED", ks, forms>>) /\ FALSE)
+\* a leaf with data left over, a missing reference, an over-long VarUInteger length and a (#<= n) above its bound are refused
+Refusals ==
+  /\ ~Dec(<<>>, [t |-> "ref", of |-> [t |-> "uint", n |-> 3]], [b |-> <<>>, x |-> 0, r |-> << [b |-> <<1,0,1,1>>, x |-> 0, r |-> <<>>] >>]).ok
+  /\ DecLax(<<>>, [t |-> "ref", of |-> [t |-> "uint", n |-> 3]], [b |-> <<>>, x |-> 0, r |-> << [b |-> <<1,0,1,1>>, x |-> 0, r |-> <<>>] >>]).ok
+  /\ ~Dec(<<>>, [t |-> "ref", of |-> [t |-> "uint", n |-> 3]], [b |-> <<1>>, x |-> 0, r |-> <<>>]).ok
+  /\ ~Dec(<<>>, [t |-> "varuint", n |-> 7], [b |-> <<1,1,1>> \o Zeros(56), x |-> 0, r |-> <<>>]).ok
+  /\ Dec(<<>>, [t |-> "varuint", n |-> 7], [b |-> <<1,1,0>> \o Zeros(48), x |-> 0, r |-> <<>>]).ok
+  /\ ~Dec(<<>>, [t |-> "natle", n |-> 30], [b |-> <<1,1,1,1,1>>, x |-> 0, r |-> <<>>]).ok
+  /\ Dec(<<>>, [t |-> "natle", n |-> 30], [b |-> <<1,1,1,1,0>>, x |-> 0, r |-> <<>>]).v = "30"
+  /\ ~Dec(<<>>, [t |-> "natlt", n |-> 5], [b |-> <<1,0,1>>, x |-> 0, r |-> <<>>]).ok
+  /\ ~Dec(<<>>, [t |-> "unary"], [b |-> <<1,1,1>>, x |-> 0, r |-> <<>>]).ok
+  /\ ~Dec(<<>>, [t |-> "uint", n |-> 3], [b |-> <<1,1,1>>, x |-> 1, r |-> <<>>]).ok
+  /\ Dec(<<>>, [t |-> "sum", ctors |-> << [name |-> "A", tag |-> "$1", body |-> [t |-> "seq", fields |-> <<>>]],
+                                          [name |-> "B", tag |-> "$10", body |-> [t |-> "seq", fields |-> <<>>]] >>],
+          [b |-> <<1, 0>>, x |-> 0, r |-> <<>>]).v.c = "A"                         \* first match
+ASSUME DictAgrees
+ASSUME Refusals
 =============================================================================
